@@ -704,6 +704,158 @@ Proof.
   destruct st; try (apply IH; exact H). destruct H as [-> H]. rewrite (IH _ H). reflexivity.
 Qed.
 
+(* ---------- keyword arguments are dicts; dicts stay dicts ---------- *)
+Definition kw_dict (h : list hobj) (e : event) : bool :=
+  match e with
+  | EvCall _ _ (Some kw) _ =>
+      match kw with
+      | VRef i => match nth_error h i with Some (HDict _) => true | _ => false end
+      | _ => false
+      end
+  | _ => true
+  end.
+
+Definition dicts_stay (h h' : list hobj) : Prop :=
+  forall i kvs, nth_error h i = Some (HDict kvs) -> exists kvs', nth_error h' i = Some (HDict kvs').
+
+Lemma dicts_stay_refl h : dicts_stay h h.
+Proof. intros i kvs H. eauto. Qed.
+
+Lemma dicts_stay_app h x : dicts_stay h (h ++ x).
+Proof.
+  intros i kvs H. exists kvs. rewrite nth_error_app1; [exact H | apply nth_error_Some; congruence].
+Qed.
+
+Lemma nth_error_set_nth_eq {A} (x : A) : forall l i a, nth_error l i = Some a -> nth_error (set_nth i x l) i = Some x.
+Proof. induction l as [|y l IH]; intros [|i] a H; cbn in *; try discriminate; eauto. Qed.
+
+Lemma nth_error_set_nth_neq {A} (x : A) : forall l i j, i <> j -> nth_error (set_nth i x l) j = nth_error l j.
+Proof.
+  induction l as [|y l IH]; intros [|i] [|j] H; cbn; try reflexivity; try congruence.
+  apply IH. congruence.
+Qed.
+
+Lemma dicts_stay_set h i o o' :
+  nth_error h i = Some o -> (forall kvs, o = HDict kvs -> exists kvs', o' = HDict kvs') ->
+  dicts_stay h (set_nth i o' h).
+Proof.
+  intros Ho K j kvs Hj. destruct (Nat.eq_dec i j) as [->|N].
+  - rewrite Ho in Hj. inversion Hj; subst. destruct (K _ eq_refl) as (kvs' & ->).
+    exists kvs'. eapply nth_error_set_nth_eq; eauto.
+  - exists kvs. rewrite nth_error_set_nth_neq; assumption.
+Qed.
+
+Lemma kw_dict_mono h h' e : dicts_stay h h' -> kw_dict h e = true -> kw_dict h' e = true.
+Proof.
+  intros M. destruct e; cbn; auto. destruct kw as [[| | |i| |]|]; auto.
+  destruct (nth_error h i) as [[| |kvs]|] eqn:E; try discriminate.
+  destruct (M _ _ E) as (kvs' & ->). auto.
+Qed.
+
+Lemma kw_log_mono h h' l : dicts_stay h h' -> forallb (kw_dict h) l = true -> forallb (kw_dict h') l = true.
+Proof.
+  intros M H. rewrite forallb_forall in *. intros e He. eapply kw_dict_mono; eauto.
+Qed.
+
+Lemma dicts_stay_step o s s' : vstep o s = Ok s' -> dicts_stay (heap s) (heap s').
+Proof.
+  intros H. destruct o; cbn [vstep] in H; unfold do_call, find_class in H.
+  all: repeat (progress (fk_inv; eqs; subst; simp_proj; vinv_pairs; crack)).
+  all: rewrite ?fold_vlog_eq; simp_proj.
+  all: try apply dicts_stay_refl; try apply dicts_stay_app.
+  all: match goal with G : vget_obj ?i _ = Some ?o |- _ =>
+         unfold vget_obj in G; simp_proj; eapply dicts_stay_set; [exact G|];
+         intros kvs0 E0; try discriminate E0; eauto end.
+Qed.
+
+Lemma kw_step o s s' :
+  vstep o s = Ok s' -> forallb (kw_dict (heap s)) (log s) = true ->
+  forallb (kw_dict (heap s')) (log s') = true.
+Proof.
+  intros H K. pose proof (kw_log_mono _ _ _ (dicts_stay_step _ _ _ H) K) as K'. clear K.
+  destruct o; cbn [vstep] in H; unfold do_call, find_class in H.
+  all: repeat (progress (fk_inv; eqs; subst; simp_proj; vinv_pairs; crack)).
+  all: rewrite ?fold_vlog_eq in *; simp_proj; cbn [forallb kw_dict]; try exact K'.
+  all: try (rewrite forallb_app; apply andb_true_iff; split; [|exact K'];
+            rewrite forallb_forall; intros e He; apply in_rev in He; apply in_map_iff in He;
+            destruct He as (kv & <- & _); reflexivity).
+  all: match goal with G : vget_obj ?i _ = Some _ |- _ => unfold vget_obj in G; simp_proj; rewrite G end;
+       exact K'.
+Qed.
+
+Lemma kw_run : forall p s s', vrun_from p s = Ok s' ->
+  forallb (kw_dict (heap s)) (log s) = true -> forallb (kw_dict (heap s')) (log s') = true.
+Proof.
+  induction p as [|o r IH]; intros s s' H K; cbn [vrun_from] in H.
+  - inversion H; subst; exact K.
+  - destruct (is_stopped s); [inversion H; subst; exact K|].
+    apply bind_ok in H. destruct H as (s1 & H1 & H). eauto using kw_step.
+Qed.
+
+(* ---------- every variable of fickling is bound to a well-formed stand-in ---------- *)
+Lemma step_ctr_top o f f' : step o f = Ok f' ->
+  ctr f' = ctr f \/ (ctr f' = S (ctr f) /\ exists r, stack f' = IE (EVar (ctr f)) :: r).
+Proof.
+  intros H. destruct o; cbn [step] in H; unfold bind_call, emit_import in H.
+  all: repeat (progress (fk_inv; eqs; subst; simp_proj; inv_pairs; crack)).
+  all: rewrite ?fold_emit_eq; simp_proj; cbn [ctr stack push with_stack]; eauto.
+  all: repeat match goal with |- context[is_builtins ?m] => destruct (is_builtins m) end;
+       simp_proj; cbn [ctr stack push with_stack emit]; eauto.
+Qed.
+
+Lemma ext_same_length : forall al al' : env, ext al al' -> List.length al' = List.length al -> al' = al.
+Proof.
+  induction al as [|x al IH]; intros [|y al'] X L; cbn in L; try discriminate; [reflexivity|].
+  pose proof (X 0 x eq_refl) as H0. cbn in H0. inversion H0; subst. f_equal. apply IH; [|lia].
+  intros i z Hi. exact (X (S i) z Hi).
+Qed.
+
+Lemma ext_snoc : forall al al' : env, ext al al' -> List.length al' = S (List.length al) ->
+  exists x, al' = al ++ [x].
+Proof.
+  induction al as [|x al IH]; intros [|y al'] X L; cbn in L; try discriminate.
+  - destruct al'; [|discriminate]. exists y. reflexivity.
+  - pose proof (X 0 x eq_refl) as H0. cbn in H0. inversion H0; subst.
+    destruct (IH al') as (z & ->); [intros i w Hi; exact (X (S i) w Hi) | lia|]. exists z. reflexivity.
+Qed.
+
+Theorem run_lockstep_wf P : forall p al f v f' v',
+  (forall k, P (VObj k) = true) ->
+  (forall m n, In (EvResolve m n) (log v') -> P (VGlobal m n) = true) ->
+  R al f v -> WF P v -> Forall (fun y => wfv P y = true) al ->
+  run_from p f = Ok f' -> vrun_from p v = Ok v' ->
+  exists al', ext al al' /\ R al' f' v' /\ WF P v' /\ Forall (fun y => wfv P y = true) al'.
+Proof.
+  induction p as [|o r IH]; intros al f v f' v' HPo HPg HR HW Hal Hs Hv; cbn [run_from vrun_from] in *.
+  - inversion Hs; inversion Hv; subst. exists al. split; [apply ext_refl|]. split; [assumption|]. split; assumption.
+  - pose proof (R_stopped_agree _ _ _ HR) as St. rewrite <- St in Hv.
+    destruct (stopped f) eqn:Sf.
+    + inversion Hs; inversion Hv; subst. exists al. split; [apply ext_refl|]. split; [assumption|]. split; assumption.
+    + apply bind_ok in Hs. destruct Hs as (f1 & S1 & Hs).
+      apply bind_ok in Hv. destruct Hv as (v1 & V1 & Hv).
+      assert (vstopped v = None) as NS.
+      { unfold is_stopped in St. destruct (vstopped v); [discriminate | reflexivity]. }
+      destruct (lockstep _ _ _ _ _ _ NS HR S1 V1) as (al1 & X1 & R1).
+      assert (WF P v1) as W1.
+      { eapply wf_step; [right; split; [exact HPo|] | exact V1 | exact HW].
+        intros m n Hin. apply HPg. destruct (vrun_log_grows _ _ _ Hv) as (ev & E). rewrite E.
+        apply in_or_app. right. exact Hin. }
+      assert (Forall (fun y => wfv P y = true) al1) as Hal1.
+      { pose proof (R_ctr _ _ _ HR) as C0. pose proof (R_ctr _ _ _ R1) as C1.
+        destruct (step_ctr_top _ _ _ S1) as [Ec|(Ec & r0 & Et)].
+        - rewrite (ext_same_length _ _ X1); [exact Hal | congruence].
+        - destruct (ext_snoc _ _ X1) as (x & ->); [congruence|].
+          apply Forall_app. split; [exact Hal|]. constructor; [|constructor].
+          pose proof (R_stack _ _ _ R1) as Rs. rewrite Et in Rs.
+          apply rs_inv_val in Rs. destruct Rs as (y & c' & Ecur & Hrel & _).
+          inversion Hrel as [| | | |i0 x0 Hn|]; subst.
+          rewrite C0, nth_error_snoc in Hn. inversion Hn; subst.
+          pose proof (W_cur _ _ W1) as Wc. rewrite Ecur in Wc. cbn in Wc.
+          apply andb_true_iff in Wc. tauto. }
+      destruct (IH _ _ _ _ _ HPo HPg R1 W1 Hal1 Hs Hv) as (al2 & X2 & R2 & W2 & Hal2).
+      exists al2. split; [eapply ext_trans; eauto|]. split; [assumption|]. split; assumption.
+Qed.
+
 (* ---------- small list facts ---------- *)
 Lemma mem_str_In x l : mem_str x l = true <-> In x l.
 Proof.
@@ -840,6 +992,8 @@ Hypothesis Hal : Forall (fun y => callable y = true) al.
 Hypothesis HD14 : distinct_attr_names L = true.
 Hypothesis Hall : forall m nm, In (EvResolve m nm) L -> is_builtins m = false -> mem_str nm all = true.
 Hypothesis Hbi : is_builtins "builtins" = true.
+Hypothesis Hal_wf : Forall (fun y => wfv P y = true) al.
+Hypothesis HkwL : forallb (kw_dict h) L = true.
 
 Lemma names_ok_at (r : list stmt) :
   (forall m nm, In (SImport m nm) r -> In (EvResolve m nm) L /\ is_builtins m = false) ->
@@ -911,20 +1065,37 @@ Proof.
   apply eval_denotes; auto. rewrite Hi. apply names_ok_at. exact Hr.
 Qed.
 
-Lemma exec_call_plain f args s :
+Definition eval_kw (kw : option expr) (s2 : pst) : res (option val * pst) :=
+  match kw with
+  | None => Ok (None, s2)
+  | Some k =>
+      do '(d, s3) <- peval ns n k s2;
+      match d with
+      | VRef i => match nth_error (pheap s3) i with
+                  | Some (HDict _) => Ok (Some d, s3)
+                  | _ => Err EType
+                  end
+      | _ => Err EType
+      end
+  end.
+
+Lemma exec_call_generic f args kw s :
   match f with EAttr _ _ => false | _ => true end = true ->
-  exec_call ns n f args None s =
+  exec_call ns n f args kw s =
   (do '(fv, s1) <- peval ns n f s;
    if negb (callable fv) then Err EType else
    do '(avs, hp2) <- eval_args ns (pimports s1) (pvars s1) n args (pheap s1);
-   let '(k, s4) := pfresh (with_heap s1 hp2) in Ok (VObj k, plog_add (EvCall fv avs None k) s4)).
+   let s2 := with_heap s1 hp2 in
+   do '(kwv, s3) <- eval_kw kw s2;
+   let '(k, s4) := pfresh s3 in Ok (VObj k, plog_add (EvCall fv avs kwv k) s4)).
+Proof. intros H. destruct f; try discriminate H; reflexivity. Qed.
+
+Lemma same_shape_dict k h1 h2 i kvs d :
+  nth_error h1 i = Some (HDict kvs) -> same_shape k h1 h2 (VRef i) d = true ->
+  exists j kvs', d = VRef j /\ nth_error h2 j = Some (HDict kvs').
 Proof.
-  intros H. destruct f; try discriminate H; unfold exec_call; cbn [is_pers_load];
-    (match goal with |- context[peval ns n ?e s] => destruct (peval ns n e s) as [[fv s1]|] end;
-     cbn [bind]; [|reflexivity]);
-    (destruct (negb (callable fv)); [reflexivity|]);
-    (match goal with |- context[eval_args ?a ?b ?c ?d ?e ?g] => destruct (eval_args a b c d e g) as [[avs hp2]|] end;
-     cbn [bind]; reflexivity).
+  intros E H. destruct k; [discriminate|]. cbn [same_shape] in H. destruct d; try discriminate.
+  rewrite E in H. destruct (nth_error h2 i0) as [[| |kvs']|] eqn:E2; try discriminate. eauto.
 Qed.
 
 Lemma with_heap_id s : with_heap s (pheap s) = s.
@@ -973,6 +1144,29 @@ Proof.
   intros Iv Hlt Hi. apply Nat.ltb_lt in Hlt. destruct (Iv i obj Hlt Hi) as (y & Ey & Sy).
   exists y. unfold var_value. rewrite Ey. repeat split; auto.
   eapply leaf_callable; [exact Sy|]. eapply env_callable; eauto.
+Qed.
+
+Lemma pkw_denotes st r kw kw' :
+  (forall m nm, In (SImport m nm) r -> In (EvResolve m nm) L /\ is_builtins m = false) ->
+  vars_ok (nassign r) (pvars st) -> pimports st = imports_of_body r ->
+  match kw with
+  | Some k => fits n ns (nassign r) (okname_at all (imports_of_body r)) k = true
+  | None => True
+  end ->
+  rel_opt al kw kw' ->
+  match kw' with Some x => wfv P x = true | None => True end ->
+  kw_dict h (EvCall (VConst CNone) [] kw' 0) = true ->
+  exists kwd hp', eval_kw kw st = Ok (kwd, with_heap st (pheap st ++ hp')) /\
+                  same_opt n h (pheap st ++ hp') kw' kwd = true.
+Proof.
+  intros Hr Hv Hi Hf Hrel Hw Hk. destruct kw as [k|], kw' as [x|]; cbn in Hrel; try contradiction.
+  - destruct (peval_denotes st r k x Hr Hv Hi Hf Hrel Hw) as (d & hp' & E & S).
+    cbn [kw_dict] in Hk. destruct x; try discriminate Hk.
+    destruct (nth_error h i) as [[| |kvs]|] eqn:Ei; try discriminate Hk.
+    destruct (same_shape_dict _ _ _ _ _ _ Ei S) as (j & kvs' & -> & Ej).
+    exists (Some (VRef j)), hp'. cbn [eval_kw]. rewrite E. cbn [bind with_heap pheap]. rewrite Ej.
+    split; [reflexivity | exact S].
+  - exists None, []. cbn [eval_kw]. rewrite app_nil_r, with_heap_id. split; reflexivity.
 Qed.
 
 Lemma exec_agrees : forall b l, rel_events al b l ->
@@ -1025,28 +1219,37 @@ Proof.
       split; [apply Hincl; right; exact A | exact B]. }
     cbn [stmt_fits] in Hs.
     assert (is_pers_load f = false) as Hpl by (destruct Hf; reflexivity).
-    rewrite Hpl in Hs. destruct kw as [kwe|]; [discriminate Hs|].
-    destruct kw' as [kwv|]; [contradiction|].
-    apply andb_true_iff in Hs. destruct Hs as [Hff Hfa].
+    rewrite Hpl in Hs.
+    apply andb_true_iff in Hs. destruct Hs as [Hs Hfk]. apply andb_true_iff in Hs. destruct Hs as [Hff Hfa].
+    assert (kw_dict h (EvCall f' args' kw' k) = true) as Hkd.
+    { pose proof HkwL as HK. rewrite forallb_forall in HK. apply HK. apply Hincl. left. reflexivity. }
     cbn [event_wf] in Hev. bdestr'.
-    match goal with Hc : callable f' = true, Hw1 : wfv P f' = true, Hw2 : forallb (wfv P) args' = true |- _ =>
-      rename Hc into Hcal; rename Hw1 into Hwf'; rename Hw2 into Hwa end.
+    match goal with Hc : callable f' = true, Hw1 : wfv P f' = true, Hw2 : forallb (wfv P) args' = true,
+                    Hw3 : match kw' with Some _ => _ | None => _ end = true |- _ =>
+      rename Hc into Hcal; rename Hw1 into Hwf'; rename Hw2 into Hwa; rename Hw3 into Hwk end.
     destruct (peval_denotes st b f f' Hr Iv Ii Hff Hf Hwf') as (fv & hp1 & E1 & S1).
     destruct (pargs_denotes (with_heap st (pheap st ++ hp1)) b args args' (pheap st ++ hp1) Hr Iv Ii Hfa Hargs Hwa)
       as (avs & hp2 & E2 & S2).
+    destruct (pkw_denotes (with_heap (with_heap st (pheap st ++ hp1)) ((pheap st ++ hp1) ++ hp2)) b kw kw')
+      as (kwd & hp3 & E3 & S3); auto.
+    { destruct kw; [exact Hfk | exact Logic.I]. }
+    { destruct kw'; [exact Hwk | exact Logic.I]. }
     pose proof (numbered_fun _ _ _ In_ Hnum) as Ek.
     eexists. split.
     + eapply exec_snoc; [exact Ex|]. cbn [exec_stmt].
-      rewrite exec_call_plain by (destruct Hf; reflexivity).
+      rewrite exec_call_generic by (destruct Hf; reflexivity).
       rewrite E1. cbn [bind].
       rewrite (leaf_callable _ _ (same_shape_leaf _ _ _ _ _ Hcal S1) Hcal). cbn [negb].
-      cbn [with_heap pimports pvars pheap] in E2 |- *. rewrite E2. cbn [bind pfresh with_heap pnobj].
-      reflexivity.
+      cbn [with_heap pimports pvars pheap] in E2 |- *. rewrite E2. cbn [bind].
+      cbn [with_heap pimports pvars pheap plog pnobj presult] in E3 |- *. rewrite E3.
+      cbn [bind pfresh with_heap pnobj]. reflexivity.
     + constructor; cbn [pbind plog_add pheap plog pnobj pvars pimports presult nassign imports_of_body
-                        filter visible_event numbered].
-      * cbn [forallb2 same_event same_opt with_heap pheap plog]. rewrite Ek, Nat.eqb_refl, S2, andb_true_r.
-        rewrite (same_shape_ext _ _ _ _ _ _ S1). cbn [andb].
-        apply same_log_ext. apply same_log_ext. exact Il.
+                        filter visible_event numbered with_heap].
+      * cbn [forallb2 same_event with_heap pheap plog].
+        cbn [with_heap pheap] in S3. rewrite Ek, Nat.eqb_refl, S3, andb_true_r.
+        rewrite (forallb2_same_ext _ _ _ _ _ _ S2).
+        rewrite (same_shape_ext _ _ _ _ _ _ (same_shape_ext _ _ _ _ _ _ S1)). cbn [andb].
+        apply same_log_ext. apply same_log_ext. apply same_log_ext. exact Il.
       * rewrite Ek. split; [reflexivity | exact Hnum].
       * intros j x Hj Hx. cbn [lookup_var]. destruct (Nat.eqb j i) eqn:Eji.
         -- apply Nat.eqb_eq in Eji. subst j. rewrite Hi in Hx. injection Hx as <-.
@@ -1121,19 +1324,30 @@ Proof.
       as (st & Ex & [Il In_ Iv Ii Ir]).
     pose proof (assigns_nassign _ _ Has) as Na.
     pose proof (env_callable _ _ _ Hal Hi) as Cx.
-    destruct He as [c0|m nm|es vs F|i0|j x Hj|es vs F]; cbn in Cx; try discriminate Cx;
-      cbn [stmt_fits] in Hs; try discriminate Hs.
-    apply andb_true_iff in Hs. destruct Hs as [Hlt Hn0].
-    assert (exists n', n = S n') as (n' & En) by (destruct n; [discriminate Hn0 | eauto]).
-    destruct (var_ready b st _ x Iv Hlt Hj) as (y & Ey & Sy & Cy).
+    assert (wfv P x = true) as Wx.
+    { rewrite Forall_forall in Hal_wf. apply Hal_wf. eapply nth_error_In; eauto. }
+    assert (Hr : forall m nm, In (SImport m nm) b -> In (EvResolve m nm) L /\ is_builtins m = false).
+    { intros m nm Hin. destruct (events_imports _ _ _ Hre _ _ Hin) as [A B].
+      split; [apply Hincl; exact A | exact B]. }
+    assert (exists r0 hp1, peval ns n e st = Ok (r0, with_heap st (pheap st ++ hp1)) /\
+                           same_shape n h (pheap st ++ hp1) x r0 = true /\
+                           exec_stmt ns n (SAssignV i e) st =
+                           (do '(v, s1) <- peval ns n e st; Ok (pbind i v s1))) as (r0 & hp1 & E1 & S1 & Est).
+    { destruct He as [c0|m nm|es vs F|i0|j x Hj|es vs F]; cbn in Cx; try discriminate Cx;
+        cbn [stmt_fits] in Hs.
+      - destruct (peval_denotes st b (EName nm) (VGlobal m nm) Hr Iv Ii Hs (RGlobal al m nm) Wx)
+          as (r0 & hp1 & E1 & S1). exists r0, hp1. repeat split; auto.
+      - destruct (peval_denotes st b (EVar j) x Hr Iv Ii Hs (RVar al j x Hj) Wx)
+          as (r0 & hp1 & E1 & S1). exists r0, hp1. repeat split; auto. }
+    pose proof (same_shape_leaf _ _ _ _ _ Cx S1) as Sy.
     eexists. split.
-    + eapply exec_snoc; [exact Ex|]. cbn [exec_stmt]. rewrite En. rewrite peval_var. cbn [bind].
-      reflexivity.
-    + constructor; cbn [pbind pheap plog pnobj pvars pimports presult nassign imports_of_body]; auto.
-      intros j' z Hj' Hz. cbn [lookup_var]. destruct (Nat.eqb j' i) eqn:Eji.
-      * apply Nat.eqb_eq in Eji. subst j'. rewrite Hi in Hz. injection Hz as <-.
-        exists y. rewrite Ey. split; [reflexivity | exact Sy].
-      * apply Nat.eqb_neq in Eji. apply Iv; [rewrite Na; lia | exact Hz].
+    + eapply exec_snoc; [exact Ex|]. rewrite Est, E1. cbn [bind]. reflexivity.
+    + constructor; cbn [pbind pheap plog pnobj pvars pimports presult nassign imports_of_body with_heap]; auto.
+      * apply same_log_ext. exact Il.
+      * intros j' z Hj' Hz. cbn [lookup_var]. destruct (Nat.eqb j' i) eqn:Eji.
+        -- apply Nat.eqb_eq in Eji. subst j'. rewrite Hi in Hz. injection Hz as <-.
+           exists r0. split; [reflexivity | exact Sy].
+        -- apply Nat.eqb_neq in Eji. apply Iv; [rewrite Na; lia | exact Hz].
   - (* x[k] = v on a stand-in *)
     cbn [assigns] in Has. cbn [numbered] in Hnum.
     cbn [body_fits] in Hfit. apply andb_true_iff in Hfit. destruct Hfit as [Hs Hfit].
@@ -1195,8 +1409,8 @@ Proof.
   destruct st; cbn; auto.
 Qed.
 
-(* Calls (REDUCE / NEWOBJ / OBJ / INST / GLOBAL / STACK_GLOBAL / BUILD on an object / BINPERSID /
-   SETITEM and SETITEMS on an object) on top of arbitrary data: the decompiled program evaluates, its result
+(* Calls (REDUCE / NEWOBJ / NEWOBJ_EX with keyword arguments / OBJ / INST / GLOBAL / STACK_GLOBAL /
+   BINPERSID / BUILD, SETITEM and SETITEMS on an object or on a global itself) on top of arbitrary data: the decompiled program evaluates, its result
    unfolds to the same tree as the VM's value, and its event log is the VM's (same callee, same
    arguments, same order, results numbered alike; builtins resolves are implicit). *)
 Theorem eval_agrees p n f v x :
@@ -1207,15 +1421,14 @@ Theorem eval_agrees p n f v x :
     forallb2 (same_event n (heap v) (pheap st)) (filter visible_event (log v)) (plog st) = true.
 Proof.
   intros Hs Hv Hx Hd HD14.
-  destruct (run_lockstep p _ _ _ _ _ (R_init 0) Hs Hv) as (al & _ & HR).
-  pose proof HR as [Rs Rm Rh Re Rc Rv Rp].
   set (P := resolved_in (log v)).
-  assert (WF P v) as HW.
-  { eapply wf_run; [right; split | exact Hv | apply WF_init].
-    - reflexivity.
-    - intros m nm Hin. apply In_resolved_in. exact Hin. }
+  destruct (run_lockstep_wf P p _ _ _ _ _ (fun k => eq_refl)
+              (fun m nm Hin => In_resolved_in _ _ _ Hin) (R_init 0) (WF_init P) (Forall_nil _) Hs Hv)
+    as (al & _ & HR & HW & Halwf).
+  pose proof HR as [Rs Rm Rh Re Rc Rv Rp].
   assert (numbered (log v) (nobj v)) as Hnum by (eapply numbered_run; [exact Hv | reflexivity]).
   assert (assigns (body f) (ctr f)) as Has by (eapply assigns_run; [exact Hs | reflexivity]).
+  assert (forallb (kw_dict (heap v)) (log v) = true) as Hkw by (eapply kw_run; [exact Hv | reflexivity]).
   unfold defined_before_use in Hd. apply andb_true_iff in Hd. destruct Hd as [Hfit Hone].
   rewrite Hx in Rp. destruct Rp as (_ & e & b0 & Eb & Hrx).
   pose proof (W_stop _ _ HW) as Wx. rewrite Hx in Wx.
